@@ -3,7 +3,7 @@
    what the step contributes to c's DATA / EXTENDED_DATA projections); the stream theorems are
    inductions over the history that only use [lstep]. *)
 From Coq Require Import ZArith List Bool Lia ZifyBool.
-From PV Require Import Bytes C21.
+From PV Require Import Bytes C21_gen C21.
 Import ListNotations.
 Open Scope Z_scope.
 
@@ -688,4 +688,30 @@ Lemma thm_sender_window w p s :
 Proof.
   cbv zeta. pose proof (sendall_win_ok (S (length s)) w p s) as H.
   destruct (sendall_win (S (length s)) w p s) as [[l rest] wf]. exact H.
+Qed.
+
+(* ---- the constants the model writes out are the ones in the source (Gen/C21_gen.v) -------------- *)
+Lemma gen_dispatch : forall m : msg, In (msg_ptype m, handler_code m) gen_handler_table.
+Proof. intros m. destruct m; vm_compute; tauto. Qed.
+
+Lemma gen_table_functional : NoDup (map fst gen_handler_table).
+Proof. repeat constructor; cbn; intuition discriminate. Qed.
+
+Lemma gen_constants :
+  gen_stderr_code = stderr_code /\ gen_packet_overhead = packet_overhead /\
+  gen_initial_exit_status = c_exit chan0 /\ gen_initial_combine = c_comb chan0 /\
+  gen_shapes_pinned = true /\
+  (forall ch code s, code <> gen_stderr_code -> handle ch (ExtData code s) = ch) /\
+  (forall c cid code s l, code <> gen_stderr_code ->
+     ext_of c ((cid, ExtData code s) :: l) = ext_of c l) /\
+  (forall len w p, 0 <= len <= w -> fst (send_size len w p) = Z.min len (p - gen_packet_overhead)).
+Proof.
+  repeat split; try reflexivity.
+  - intros ch code s H. change gen_stderr_code with 1 in H. cbn [handle].
+    destruct (code =? 1) eqn:E; [apply Z.eqb_eq in E; contradiction|reflexivity].
+  - intros c cid code s l H. change gen_stderr_code with 1 in H. rewrite ext_of_cons. unfold ext1.
+    destruct (code =? 1) eqn:E; [apply Z.eqb_eq in E; contradiction|].
+    rewrite andb_false_r. reflexivity.
+  - intros len w p H. change gen_packet_overhead with 64. unfold send_size. cbn [fst].
+    destruct (w <? len) eqn:E1; destruct (p - 64 <? _) eqn:E2; lia.
 Qed.
